@@ -291,6 +291,41 @@ impl SwarmDriver {
         (self.quotes_history.get(peer).cloned(), issues, bad)
     }
 
+    /// The issues recorded against a peer as (kind, age in whole seconds), whether it is considered bad, and whether
+    /// it is still in the routing table.
+    pub fn verif_node_issues(&mut self, peer: &PeerId) -> (Vec<(String, u64)>, bool, bool) {
+        let (issues, bad) = self
+            .bad_nodes
+            .get(peer)
+            .map(|(v, b)| {
+                (
+                    v.iter()
+                        .map(|(i, t)| (format!("{i:?}"), t.elapsed().as_secs()))
+                        .collect(),
+                    *b,
+                )
+            })
+            .unwrap_or((vec![], false));
+        let in_rt = self
+            .swarm
+            .behaviour_mut()
+            .kademlia
+            .kbuckets()
+            .any(|b| b.iter().any(|e| e.node.key.preimage() == peer));
+        (issues, bad, in_rt)
+    }
+
+    /// Make every issue recorded against a peer `secs` seconds older (instead of waiting).
+    pub fn verif_age_node_issues(&mut self, peer: &PeerId, secs: u64) {
+        if let Some((issues, _)) = self.bad_nodes.get_mut(peer) {
+            for (_, t) in issues.iter_mut() {
+                if let Some(older) = t.checked_sub(std::time::Duration::from_secs(secs)) {
+                    *t = older;
+                }
+            }
+        }
+    }
+
     /// Let the deadline of one in-flight replication fetch of this node pass (instead of waiting 20 s).
     pub fn verif_expire_fetch(&mut self, key: &RecordKey, record_type: &RecordType) -> bool {
         self.replication_fetcher
